@@ -586,7 +586,7 @@ theorem n_observers_invariant_partial (obs : List Nat) (g : Graph)
     for the others untouched — `Ext`; likewise for the injection — `Rel`.) -/
 theorem n_observers_invariant (obs : List Nat) (g : Graph) (hc : Closed g)
     (h0 : countKind g isObserver = 0) (hb : countKind g (· == .branch) = 0)
-    (hel : Eligible g (ehNodes g))
+    (hel : obs.isEmpty = false → Eligible g (ehNodes g))
     (hchild : ∀ x ∈ ehNodes g, ∀ c, (g.succs x).head? = some c → g.kind c ≠ .errMatch)
     (hfall : ∀ x ∈ fallibleNodes g, (matcherSuccs g x).length = 2)
     (hone : (ehNodes g).length = (fallibleNodes g).length) :
@@ -599,7 +599,7 @@ theorem n_observers_invariant (obs : List Nat) (g : Graph) (hc : Closed g)
     simp
   | false =>
     obtain ⟨hf, hext⟩ := splice_fired obs hne g hc (ehNodes g) g (ehNodes g) (fun _ h => h)
-      (Ext.refl _ g) hel
+      (Ext.refl _ g) (hel hne)
     have hC : ∀ d, ChildOf g (ehNodes g) d → d < g.size ∧ g.kind d ≠ .errMatch := by
       rintro d ⟨x, hx, hd⟩
       exact ⟨succs_lt hc (List.mem_of_mem_head? hd), hchild x hx d hd⟩
@@ -618,7 +618,7 @@ theorem n_observers_invariant (obs : List Nat) (g : Graph) (hc : Closed g)
 
 /-- the same, from the executable check the driver evaluates on every real graph (with the observers and
     branching nodes removed). -/
-theorem n_observers_invariant_of_check (obs : List Nat) (g : Graph) (h : spliceReady g = true) :
+theorem n_observers_invariant_of_check (obs : List Nat) (g : Graph) (h : spliceReady g (!obs.isEmpty) = true) :
     invariantHolds (injectBranching (spliceAll obs g)) obs.length = true := by
   simp only [spliceReady, Bool.and_eq_true, beq_iff_eq] at h
   obtain ⟨⟨⟨⟨⟨hc, h0⟩, hb⟩, hel⟩, hfall⟩, hone⟩ := h
@@ -627,9 +627,9 @@ theorem n_observers_invariant_of_check (obs : List Nat) (g : Graph) (h : spliceR
   · intro e he
     have := List.all_eq_true.mp hc e he
     simpa using this
-  · intro x hx
+  · intro hne x hx
     have := hel' x hx
-    simp only [Bool.and_eq_true, decide_eq_true_eq] at this
+    simp only [Bool.and_eq_true, decide_eq_true_eq, hne, Bool.not_false, Bool.not_true, Bool.false_or] at this
     exact ⟨this.1.1.1, this.1.1.2, this.1.2⟩
   · intro x hx c hcx
     have := hel' x hx
@@ -689,7 +689,7 @@ example : countKind demo0 isObserver = 0 ∧ countKind demo0 (· == .branch) = 0
     fired [0, 1] demo0 (ehNodes demo0) = 2 ∧
     injected (spliceAll [0, 1] demo0) (fallibleNodes (spliceAll [0, 1] demo0)) = 2 ∧
     countKind (injectBranching (spliceAll [0, 1] demo0)) isObserver = 4 := by decide
-example : spliceReady demo0 = true := by decide
+example : spliceReady demo0 true = true := by decide
 -- the static hypotheses of `n_observers_invariant` hold on it as well
 example : Closed demo0 ∧ Eligible demo0 (ehNodes demo0) ∧
     (∀ x ∈ ehNodes demo0, ∀ c, (demo0.succs x).head? = some c → demo0.kind c ≠ .errMatch) ∧
